@@ -331,4 +331,80 @@ Section Auth.
                end
       | _ => HNoToken
       end.
+
+  (** ---- calls as threads: the code's steps with their thread-LOCAL state ----
+
+      Enforce and RefreshKey keep everything they compute in locals (the
+      decoded bytes, the plaintext, the record); the Authenticator's fields
+      (cipher, casbin enforcer, password hash) are only read.  A call is
+      therefore a thread whose step function maps its own state to its own
+      next state; there is no shared component.  [ProofsConc] lifts this to
+      all interleavings. *)
+
+  Inductive call :=
+  | CallEnforce (now : Z) (tok obj act : bytes)
+  | CallRefresh (now1 now2 : Z) (nonce tok : bytes) (d : Z).
+
+  Inductive answer :=
+  | AEnforce (r : res bool)
+  | ARefresh (r : res bytes).
+
+  Inductive tstate :=
+  | TStart (c : call)
+  | TDecoded (c : call) (data : bytes)              (* after base64.DecodeString *)
+  | TOpened (c : call) (pt : bytes)                 (* after ciph.decrypt *)
+  | TParsed (c : call) (role : bytes) (exp : Z)     (* after json.Unmarshal *)
+  | TDone (a : answer).
+
+  Definition fail (c : call) (e : err) : tstate :=
+    TDone (match c with CallEnforce _ _ _ _ => AEnforce (Err e) | CallRefresh _ _ _ _ _ => ARefresh (Err e) end).
+  Definition crash (c : call) : tstate :=
+    TDone (match c with CallEnforce _ _ _ _ => AEnforce Panic | CallRefresh _ _ _ _ _ => ARefresh Panic end).
+  Definition call_tok (c : call) : bytes :=
+    match c with CallEnforce _ t _ _ => t | CallRefresh _ _ _ t _ => t end.
+
+  Definition tstep (checked : bool) (k : K) (s : tstate) : tstate :=
+    match s with
+    | TStart c =>
+        match c with
+        | CallRefresh _ _ _ _ d => if d =? 0 then fail c EZeroExpiry
+                                   else match b64dec (call_tok c) with Some data => TDecoded c data | None => fail c EDecode end
+        | CallEnforce _ _ _ _ => match b64dec (call_tok c) with Some data => TDecoded c data | None => fail c EDecode end
+        end
+    | TDecoded c data =>
+        match decrypt checked k data with
+        | Ok p => TOpened c p
+        | Err e => fail c e
+        | Panic => crash c
+        end
+    | TOpened c pt =>
+        match dec_rec pt with Some (role, exp) => TParsed c role exp | None => fail c EJson end
+    | TParsed c role exp =>
+        match c with
+        | CallEnforce now _ obj act =>
+            TDone (AEnforce (if exp <? now then Err EExpired else Ok (policy_allows role obj act)))
+        | CallRefresh now1 now2 nonce _ d =>
+            TDone (ARefresh (if exp <? now1 then Err EExpired
+                             else Ok (b64enc (encrypt k nonce (enc_rec role (now2 + dur_ns d))))))
+        end
+    | TDone a => TDone a
+    end.
+
+  (** the sequential answer of a call *)
+  Definition answer_of (checked : bool) (k : K) (c : call) : answer :=
+    match c with
+    | CallEnforce now tok obj act => AEnforce (enforce checked k now tok obj act)
+    | CallRefresh now1 now2 nonce tok d => ARefresh (refresh checked k now1 now2 nonce tok d)
+    end.
+
+  (** a system of concurrent calls: the scheduler picks which thread steps next *)
+  Fixpoint upd {A} (i : nat) (f : A -> A) (l : list A) : list A :=
+    match l, i with
+    | [], _ => []
+    | x :: t, O => f x :: t
+    | x :: t, S i' => x :: upd i' f t
+    end.
+
+  Definition run_sched (checked : bool) (k : K) (sched : list nat) (threads : list tstate) : list tstate :=
+    fold_left (fun s i => upd i (tstep checked k) s) sched threads.
 End Auth.
